@@ -336,3 +336,48 @@ func VerifC15Witness() {
 	rc.ReachOfComponentContainingMember(ids[0], graph.DirectionOutbound)
 	verifrt.Assert(false, "witness: end of harness reached")
 }
+
+// VerifC15CanReach: can-reach answers on every DAG over n labelled nodes (each forward pair
+// i<j is an edge or not: 2^(n(n-1)/2) graphs), nodes inserted in ascending or descending
+// order (the order decides component ids and with them the order of adjacency lists), fresh
+// cache: CanReach (the bidirectional ComponentReachable) for every ordered pair in both
+// directions, and the component graph's one-sided ComponentSearch, equal the closure of the
+// edge list.
+func VerifC15CanReach(n int) {
+	var starts, ends []int
+	for i := 0; i < n; i++ {
+		for j := i + 1; j < n; j++ {
+			if verifrt.NondetChoice("edge present", 2) == 1 {
+				starts, ends = append(starts, i), append(ends, j)
+			}
+		}
+	}
+	ids := verifIDs(n, false)
+	descending := verifrt.NondetChoice("insertion order", 2) == 1
+	g := container.NewAdjacencyMapGraph()
+	for s := 0; s < n; s++ {
+		i := s
+		if descending {
+			i = n - 1 - s
+		}
+		g.AddNode(ids[i])
+	}
+	for e := range starts {
+		g.AddEdge(ids[starts[e]], ids[ends[e]])
+	}
+	reach := verifClosure(n, starts, ends)
+	rc := NewReachabilityCache(context.Background(), g, 64)
+	cg := NewComponentGraph(context.Background(), g)
+	for _, dir := range []graph.Direction{graph.DirectionOutbound, graph.DirectionInbound} {
+		for i := 0; i < n; i++ {
+			ci, okI := cg.ContainingComponent(ids[i])
+			verifrt.Assert(okI, "every node has a component")
+			for j := 0; j < n; j++ {
+				want := verifReaches(reach, dir, i, j)
+				verifrt.Assert(rc.CanReach(ids[i], ids[j], dir) == want, "CanReach equals true reachability")
+				cj, _ := cg.ContainingComponent(ids[j])
+				verifrt.Assert(cg.ComponentSearch(ci, cj, dir) == want, "ComponentSearch equals true reachability")
+			}
+		}
+	}
+}
